@@ -65,6 +65,11 @@ let () =
     let l = List.fold_left (fun l c -> feed l (bytes_of_hex c) N0) loader_new chunks in
     Printf.sprintf "corrupted=%s reason=%d msgs=%s" (b2s l.l_corrupted) (if l.l_corrupted then int_of_z l.l_reason else 0)
       (if l.l_msgs = [] then "-" else String.concat "|" (List.map msg_hex l.l_msgs)));
+  reg "loadmax" (fun (mx :: _mode :: chunks) ->
+    let l0 = { loader_new with l_max = n_of_int (int_of_string mx) } in
+    let l = List.fold_left (fun l c -> feed l (bytes_of_hex c) N0) l0 chunks in
+    Printf.sprintf "corrupted=%s reason=%d msgs=%s" (b2s l.l_corrupted) (if l.l_corrupted then int_of_z l.l_reason else 0)
+      (if l.l_msgs = [] then "-" else String.concat "|" (List.map msg_hex l.l_msgs)));
   reg "loadf" (fun (nfds :: chunks) ->
     (* the transport's reading loop, step by step (to print the limits), cross-checked against the extracted feed_limited *)
     let reads = ref [] in
